@@ -27,7 +27,12 @@ def partition_column(draw, name, kinds=("int", "float", "bool", "datetime", "tex
     if kind == "int":
         col["sub"] = draw(st.sampled_from(["int64", "int64", "int32", "int8", "uint16"]))
         lo = 0 if col["sub"].startswith("u") else -3
-        col["pool"] = draw(st.lists(st.integers(lo, 12), min_size=draw(st.sampled_from([1, 2, 2])), max_size=4, unique=True))
+        small = st.integers(lo, 12)
+        if col["sub"] == "int64" and draw(st.integers(0, 3)) == 0:
+            # keys a float64 cannot tell apart
+            small = st.one_of(small, st.sampled_from([2 ** 53 + 1, 2 ** 53 + 2, -(2 ** 53) - 1, 1234567890123456789, 1234567890123456790,
+                                                      2 ** 63 - 1, -(2 ** 63) + 1]))
+        col["pool"] = draw(st.lists(small, min_size=draw(st.sampled_from([1, 2, 2])), max_size=4, unique=True))
     elif kind == "float":
         col["sub"] = "float64"
         col["pool"] = draw(st.lists(st.sampled_from([0.5, 1.0, -2.25, 1e5, 0.7, 100.0, 3.0, -0.5, 2.5]),
@@ -82,7 +87,10 @@ def partitioned(draw, thorough=False, value_kinds=frames.ALL_KINDS, max_parts=3,
     fr = dict(fr, cols=cols)
     opts = draw(frames.options(fr, schemes=schemes, thorough=thorough))
     opts["write_index"] = False if draw(st.booleans()) else opts["write_index"]
-    return {"frame": fr, "opts": opts, "partition_on": draw(st.permutations(pnames))}
+    out = {"frame": fr, "opts": opts, "partition_on": draw(st.permutations(pnames))}
+    if opts["write_index"] is False and draw(st.integers(0, 2)) == 0:
+        out["row_labels"] = draw(st.lists(st.integers(0, 3), min_size=1, max_size=6))
+    return out
 
 
 @st.composite
